@@ -93,6 +93,7 @@ def run(P, R, tier):
     from rules import common as _common
     from rules import C19 as _C19
     _C19.gate_sides(P, R, 'C10.b')
+    _common.evaluated_once(P, R, 'C10.c', 'the temp directories of different calls coincide, so one call removes or overwrites the sub-parts of another')
     _common.forward(P, R, 'C12', ['C12.c', 'C12.h'], 'C10.e', 'the returned frame (and any re-read) loads the parts in numeric order: part.10 after part.2', floor=1)
     _common.forward(P, R, 'C11', ['C11.d', 'C11.e'], 'C10.e', 'the returned frame is read back through read_parquet_dask', floor=1)
     helpers = {name: (g, _helper_kind(P, g)) for name, g in F.nested.items()}
@@ -316,10 +317,17 @@ def run(P, R, tier):
                 continue
             t = astq.template(wtask, c.args[1])
             found += 1
-            ok_dir = t[0] == 'join' and t[1][0] == 'format' and any(k == 'partition' for k, _ in t[1][2])
-            part_names = dict(t[1][2]).get('partition', ()) if ok_dir else ()
             groupvar = _groupby_var(wtask)
-            ok_dir = ok_dir and groupvar is not None and groupvar in part_names
+            d_ = t[1] if t[0] == 'join' and len(t) > 1 else None
+            if d_ is not None and d_[0] == 'index' and len(d_) == 3 and d_[1][0] == 'each' and len(d_[1]) == 4 and d_[1][3] and d_[1][1][0] == 'format':
+                # a list of temp directories built for partition numbers 0..n-1, indexed by the group's partition number: element k is the directory of partition k
+                fmt_, var_ = d_[1][1], d_[1][2]
+                ok_dir = var_ is not None and var_ in dict(fmt_[2]).get('partition', ()) and groupvar is not None and groupvar in d_[2]
+                t = ('join', fmt_) + tuple(t[2:])
+            else:
+                ok_dir = t[0] == 'join' and t[1][0] == 'format' and any(k == 'partition' for k, _ in t[1][2])
+                part_names = dict(t[1][2]).get('partition', ()) if ok_dir else ()
+                ok_dir = ok_dir and groupvar is not None and groupvar in part_names
             last = t[-1] if t[0] == 'join' else t
             ok_file = last[0] == 'fstr' and any(p[0] == 'val' and idx_param in p[1] for p in last)
             R.check(ok_dir, 'C10.c', wtask, c, 'sub-part is written under the temp dir of its own output partition number',
